@@ -269,6 +269,12 @@ class SockState(object):
                 self.base_t = max(self.base_t, now)
                 self.step_i += 1
                 continue
+            if kind == "wait_requests":
+                if len(self.requests) < step[1]:
+                    return
+                self.base_t = max(self.base_t, now)
+                self.step_i += 1
+                continue
             dt = step[-1] if kind != "stream" else step[3]
             due = self.base_t + dt
             if due > now:
@@ -297,9 +303,10 @@ class SockState(object):
             return None
         step = steps[self.step_i]
         kind = step[0]
-        if kind in ("wait_close", "wait_frames", "wait_request"):
+        if kind in ("wait_close", "wait_frames", "wait_request", "wait_requests"):
             ready = {"wait_close": self.client_close,
                      "wait_frames": kind == "wait_frames" and self.client_frames >= step[1],
+                     "wait_requests": kind == "wait_requests" and len(self.requests) >= step[1],
                      "wait_request": self.request is not None}[kind]
             return self.sim.now if ready else None
         dt = step[-1] if kind != "stream" else step[3]
